@@ -68,7 +68,7 @@ class BaseNode(Node):
     def cast_value(self, value=None):
         """ Cast (raw-)value as a datatype self, or another node
         """
-        if not value:
+        if value is None:
             if self.value is None:
                 value = self.value_raw
             else:
@@ -130,9 +130,9 @@ class BaseNode(Node):
     def set_value(self, value=None):
         """ Set value using value_raw or arbitrary value
         """
-        if value is None and self.value_raw:
+        if value is None and self.value_raw is not None:
             self.value = self.cast_value()
-        elif value:
+        elif value is not None:
             self.value = value
         else:
             self.value = None
@@ -142,11 +142,14 @@ class BaseNode(Node):
         """
         if node.keyword!='mod' and node.dtype!=self.dtype:
             raise Exception(f"Datatype {self.dtype} of node '{self.name}' cannot be changed to {node.dtype}")
-        if not self.value:  # create a dummy value if none
+        if self.value is None:  # create a dummy value if none
             self.set_value(node.value_raw)
         # copy value type modify values and units
         value = self.value.copy()
         value.value = self.cast_value(node.value_raw)
+        if value.value is None:  # modified to none: keep type and units of the definition
+            self.value = value
+            return
         if isinstance(value, (IntegerType, FloatType)):
             value.unit = node.units_raw
             value.convert(self.units_raw, env)
